@@ -97,8 +97,12 @@ enum Act { A_CONNECT,
            A_FAIL_WRITE,
            // environment fault: the server's next read on that connection fails with ETIMEDOUT (the peer vanished); the
            // client then sends a byte so that the server does read
-           A_FAIL_READ };
-static const char* kActNames[] = { "connect", "send-first-half", "send-rest", "send-request", "read", "close", "shutdown-wr", "rst", "hold-writes", "release-writes", "tick", "send-first-half+close", "send-request+close", "send-request+shutdown-wr", "send-request+rst", "tick+send-request", "tick+send-rest", "tick+close", "tick+rst", "next-write-fails", "next-read-fails+send-byte" };
+           A_FAIL_READ,
+           // composites (round 6): the connection is reset / closed by the client while it still sits in the listen backlog -
+           // the acceptor gets it from accept4() only afterwards
+           A_CONNECT_RST,
+           A_CONNECT_CLOSE };
+static const char* kActNames[] = { "connect", "send-first-half", "send-rest", "send-request", "read", "close", "shutdown-wr", "rst", "hold-writes", "release-writes", "tick", "send-first-half+close", "send-request+close", "send-request+shutdown-wr", "send-request+rst", "tick+send-request", "tick+send-rest", "tick+close", "tick+rst", "next-write-fails", "next-read-fails+send-byte", "connect+rst", "connect+close" };
 struct Step
 {
     int8_t act, conn;
@@ -138,7 +142,11 @@ static void gen(History& h, CState c[2], int nconn, int depth, int maxDepth)
         if (s.st == 0)
         {
             if (k == 0 || c[k - 1].st != 0) // symmetry: connection 1 only after connection 0
+            {
                 push(A_CONNECT, k, [](CState& x) { x.st = 1; });
+                push(A_CONNECT_RST, k, [](CState& x) { x.st = 3; });
+                push(A_CONNECT_CLOSE, k, [](CState& x) { x.st = 3; });
+            }
             continue;
         }
         if (s.st == 1)
@@ -267,6 +275,20 @@ static void run_history(const History& h, vr::Ctx& ctx, uint64_t& steps)
             }
             after(true);
             r.serverFd[st.conn] = server_fd_of_latest_peer(&r.peerId[st.conn]);
+            break;
+        case A_CONNECT_RST:
+        case A_CONNECT_CLOSE:
+            if (!c->connect_to(r.srv.port))
+            {
+                ctx.violation("c08:harness:connect-failed", d + "\"x\":0}");
+                break;
+            }
+            if (st.act == A_CONNECT_RST)
+                c->reset();
+            else
+                c->close_orderly();
+            after(true);
+            r.serverFd[st.conn] = -1;
             break;
         case A_SEND_A:
             c->send_bytes(kReqA);
